@@ -4,7 +4,7 @@ combines, and that every part survives serde); no bucket arithmetic, no float su
 import re
 from ..model import provenance, op_local
 from ..mergecov import Aliases, leaf_paths, flows, fmt_path, covered, compat
-from ..rules import short
+from ..rules import short, site
 
 AGG = "tantivy::aggregation::"
 ROOT = AGG + "intermediate_agg_result::IntermediateAggregationResults"
@@ -50,6 +50,55 @@ def run(rep, prog, tier):
     _r3(rep, prog)
     _r4(rep, prog)
     _r5(rep, prog)
+    _r6(rep, prog)
+
+
+def _r6(rep, prog):
+    """bucket keys of different numeric types are ordered by value"""
+    from ..model import provenance, op_local
+    R = "C14-R6"
+    rep.rule(R, "numeric bucket keys are ordered by value, not by type: the terms aggregation normalises the values of an f64 column into I64 / U64 / F64 keys (NumericalValue::normalize) and orders / cuts the buckets with Key::partial_cmp (`order: _key`, `size`). A derived PartialOrd compares the enum discriminants first — all negative integers, then all non-negative integers, then all fractional values. Rule: no result of <Key as PartialOrd>::partial_cmp is the comparison of the two discriminants")
+    fid = "<tantivy::aggregation::Key as core::cmp::PartialOrd>::partial_cmp"
+    b = prog.body(fid)
+    if not rep.check(b is not None, R, "Key::partial_cmp present", "found", "cannot establish: <Key as PartialOrd>::partial_cmp not found"):
+        return
+    users = [x.id for x, bi, t in prog.who_calls({fid}) if x.id.startswith(("tantivy::aggregation::", "<tantivy::aggregation::"))]
+    rep.floor(R, "aggregation functions that order buckets with Key::partial_cmp", len(set(users)), 2)
+    bad = None
+    for bi, t in b.calls():
+        if t.get("dest") != 0:
+            continue
+        f = t.get("res") or t.get("f") or ""
+        if not f.endswith("partial_cmp") or "isize" not in f:
+            continue
+        discr = 0
+        for a in t["args"]:
+            l = op_local(a)
+            if l is None:
+                continue
+            # a value read by `discr`
+            work, seen = [l], set()
+            while work:
+                x = work.pop()
+                if x in seen:
+                    continue
+                seen.add(x)
+                for d in b.defs().get(x, []):
+                    if d[0] == "stmt":
+                        st = d[3]
+                        if st.get("r") == "discr":
+                            discr += 1
+                        if st.get("r") in ("ref", "rawptr") and "p" in st:
+                            from ..model import place_local
+                            work.append(place_local(st["p"]))
+                        for o in st.get("o", []):
+                            if op_local(o) is not None:
+                                work.append(op_local(o))
+        if discr >= 2:
+            bad = bi
+    rep.check(bad is None, R, "Key::partial_cmp does not order numeric keys by their variant", "no result is the comparison of the two discriminants",
+              "<Key as PartialOrd>::partial_cmp (derived) answers with the comparison of the two enum discriminants when the operands are of different variants: the keys -2.5, -1, 0.5, 2, 3.5, 4 of a terms aggregation on an "
+              "f64 column, `order: {_key: asc}`, come out as -1, 2, 4, -2.5, 0.5, 3.5, and with `size: 2` the wrong SET of buckets (-1, 2) is returned", site=site(b, bad) if bad is not None else b.span)
 
 
 def _merge_functions(prog):
